@@ -389,6 +389,8 @@ def cases(tier, rng):
         yield t
     for t in hist_degenerate(thorough):
         yield t
+    for t in hist_multi_broken(thorough):
+        yield t
     for i in range(400 if thorough else 60):
         yield hist_random(rng)
 
@@ -856,6 +858,50 @@ def hist_degenerate(thorough):
     return out
 
 
+def hist_multi_broken(thorough):
+    """two or three unbuildable formulas in ONE evaluated batch (a range, a list, one parent formula) at different queue
+    positions, healthy siblings between them; afterwards every healthy sibling is evaluated, its precedents are set and
+    it is evaluated again (edge / ancestor / stale oracles after every step)"""
+    out = []
+    bads = ['=C{r}+[other.xlsx]Sheet1!A{r}', '=C{r}+Missing!A{r}', "='No Such'!B{r}*2+C{r}", '=SUM(Missing!A1:A2)+C{r}']
+    rows = (1, 2, 3, 4)
+    patterns = [(1, 2), (1, 4), (3, 4), (2, 3), (1, 2, 3), (1, 3, 4), (2, 3, 4), (1, 2, 3, 4)]
+    if not thorough:
+        patterns = [(1, 2), (1, 4), (3, 4), (1, 2, 3), (2, 3, 4), (1, 2, 3, 4)]
+    for bi, pat in enumerate(patterns):
+        for variant in range(3 if thorough else 2):
+            cells = {}
+            for r in rows:
+                cells[f'S!A{r}'] = r
+                cells[f'S!B{r}'] = f'=A{r}*10'
+                cells[f'S!C{r}'] = f'=B{r}+1'
+                if r in pat:
+                    cells[f'S!D{r}'] = bads[(bi + r + variant) % len(bads)].format(r=r)
+                else:
+                    cells[f'S!D{r}'] = f'=C{r}+A{r}'
+            if variant == 1 and len(pat) >= 2:
+                # one unbuildable cell reads another one
+                cells[f'S!D{pat[-1]}'] = f'=D{pat[0]}+C{pat[-1]}+Missing!A1'
+            cells['S!E1'] = '=SUM(D1:D4)'
+            cells['S!E2'] = '=D1+D2+D3+D4'
+            cells['S!E3'] = '=D4+D3+D2+D1'
+            batches = [[['ev', 'S!D1:D4']], [['evl', [f'S!D{r}' for r in rows]]], [['ev', 'S!E1']], [['ev', 'S!E2']],
+                       [['ev', 'S!E3']], [['ev', 'S!D1:D4'], ['ev', 'S!D1:D4'], ['ev', 'S!D1:D4']],
+                       [['ev', 'S!E2'], ['ev', 'S!E3'], ['ev', 'S!E1']]]
+            if not thorough:
+                batches = batches[:1] + batches[2:4] + batches[5:]
+            healthy = [f'S!C{r}' for r in rows] + [f'S!B{r}' for r in rows] + \
+                      [f'S!D{r}' for r in rows if r not in pat]
+            for batch in batches:
+                steps = list(batch) + [['ev', a] for a in healthy]
+                for r in rows:
+                    steps.append(['set', f'S!A{r}', r + 100])
+                    steps.append(['ev', f'S!C{r}'])
+                steps += [['ev', a] for a in healthy]
+                out.append({'k': 'h', 'multi': len(pat), 'cells': cells, 'steps': steps})
+    return out
+
+
 def hist_random(rng):
     n = rng.randint(5, 9)
     c = {'k': 'w', 'seed': rng.randrange(10 ** 9), 'n': n}
@@ -864,8 +910,8 @@ def hist_random(rng):
     values = [a for a in cells if a not in forms]
     if forms and rng.random() < 0.5:
         # one formula cell becomes unbuildable, some formula refers to it
-        bad = rng.choice(forms)
-        cells[bad] = rng.choice(BROKEN)
+        for bad in rng.sample(forms, min(len(forms), rng.choice([1, 1, 2, 3]))):
+            cells[bad] = rng.choice(BROKEN)
     if len(values) >= 2 and rng.random() < 0.6:
         colname = rng.choice('AB')
         cells['Sheet1!D9'] = f'=SUM({colname}:{colname})'
@@ -1096,7 +1142,8 @@ def bucket(c):
     if c['k'] == 'h' and c.get('deg'):
         return 'h:degenerate'
     if c['k'] == 'h':
-        return 'h:failed-build' if any(isinstance(v, str) and v in BROKEN for v in c['cells'].values()) else 'h'
+        return 'h:failed-build' if c.get('multi') or any(
+            isinstance(v, str) and v in BROKEN for v in c['cells'].values()) else 'h'
     if c['k'] == 'w':
         return 'w'
     t = c['tree']
